@@ -15,6 +15,8 @@ import time
 from . import boot
 
 KF_PATH = os.path.join(boot.VERIF, 'known_findings.json')
+# evidence / replay files normally go to the checkout; tools that evaluate OTHER trees in parallel redirect them
+OUT = os.environ.get('VERIF_EVIDENCE_DIR') or boot.VERIF
 
 
 def load_known():
@@ -86,7 +88,7 @@ class Aggregate:
         for slug, (ent, n, _) in sorted(kf_hits.items()):
             print('KNOWN-FINDING: property=%s %s [%s; observed in %d case(s) this run]'
                   % (prop, ent['what'], slug, n))
-        rdir = os.path.join(boot.VERIF, 'replays', prop)
+        rdir = os.path.join(OUT, 'replays', prop)
         nviol = 0
         for key, lst in sorted(new.items(), key=lambda kv: str(kv[0])):
             if nviol >= 10:
@@ -134,8 +136,8 @@ class Aggregate:
             'coverage': cov, 'assumptions': self.assumptions,
             'wall_s': round(time.time() - self.t0, 2), 'violations': len(new),
         }
-        os.makedirs(os.path.join(boot.VERIF, 'evidence'), exist_ok=True)
-        with open(os.path.join(boot.VERIF, 'evidence', prop + '.json'), 'w') as f:
+        os.makedirs(os.path.join(OUT, 'evidence'), exist_ok=True)
+        with open(os.path.join(OUT, 'evidence', prop + '.json'), 'w') as f:
             json.dump(ev, f, indent=1, default=repr, sort_keys=True)
         print('%s tier=%s seed=%s evaluations=%d distinct_nontrivial=%d known=%d new=%d undecided=%d wall=%.1fs'
               % (prop, self.tier, self.seed, self.evaluations, len(self.distinct),
